@@ -96,5 +96,9 @@ mk(G,'g16_extract_helper','-',MQ,'''        let next_position = self.next_positi
     /// Get the position of the record.
     ///
     /// Returns Ok(_) if the record was found''')])
+mk(G,'g19_summary_temp','-','src/mem/queues.rs','            summary.queues.insert(queue_name.clone(), queue.summary());','            let queue_summary = queue.summary();\n            summary.queues.insert(queue_name.clone(), queue_summary);','summary through a temporary')
+mk(G,'g20_range_unbounded_usize','-',MQ,'            Bound::Unbounded => 0,\n        };\n        (start_idx','            Bound::Unbounded => 0usize,\n        };\n        (start_idx','literal suffix')
+mk(G,'g21_inc_commute','-',FN,'let new_number = *curr.file_number + 1u64;','let new_number = 1u64 + *curr.file_number;','commuted sum')
+mk(G,'g23_gc_annot','-','src/multi_record_log.rs','        let mut num_bytes_written = 0;\n\n        if self\n            .record_log_writer\n            .directory()','        let mut num_bytes_written: u64 = 0;\n\n        if self\n            .record_log_writer\n            .directory()','type annotation on a local')
 shutil.rmtree(W, ignore_errors=True)
 subprocess.run(['git','-C','/repo','worktree','prune'],check=True)
